@@ -4,7 +4,9 @@
    and C09 (discrete edge delays).  All coefficients are even so that Heun iterates stay integral. *)
 EXTENDS Integers, Sequences, FiniteSets
 
-Mk(c, a, x0, ext, kind, edges) == [n |-> Len(c), c |-> c, a |-> a, x0 |-> x0, ext |-> ext, kind |-> kind, edges |-> edges]
+NoSd(n) == [i \in 1..n |-> [k |-> 0, lag |-> 0]]
+Mk(c, a, x0, ext, kind, edges) == [n |-> Len(c), c |-> c, a |-> a, x0 |-> x0, ext |-> ext, kind |-> kind, edges |-> edges, sd |-> NoSd(Len(c))]
+MkD(c, a, x0, kind, edges, sd) == [n |-> Len(c), c |-> c, a |-> a, x0 |-> x0, ext |-> [i \in 1..Len(c) |-> <<>>], kind |-> kind, edges |-> edges, sd |-> sd]
 Ed(s, t, w, lag) == [s |-> s, t |-> t, w |-> w, lag |-> lag]
 Cfg(steps, store, cut, solver, vec) == [steps |-> steps, store |-> store, cut |-> cut, solver |-> solver, vec |-> vec, form |-> "nodes"]
 CfgPop(steps, store, cut, solver) == [steps |-> steps, store |-> store, cut |-> cut, solver |-> solver, vec |-> TRUE, form |-> "pop"]
@@ -91,4 +93,17 @@ C08Cases(lens, stores) ==
   { cs \in [m : { C08Model(mo, we, st) : mo \in 1..3, we \in BOOLEAN, st \in lens },
             cfg : { Cfg(st, so, 0, sv, ve) : st \in lens, so \in stores, sv \in {"euler", "heun"}, ve \in BOOLEAN }] :
         cs.cfg.steps = Len(cs.m.ext[2]) /\ cs.cfg.steps % cs.cfg.store = 0 /\ cs.cfg.steps >= 2 * cs.cfg.store }
+(* ---- C10: delayed terms past(x, tau) read the true past (history = initial state before the start) ---- *)
+Sd(k, lag) == [k |-> k, lag |-> lag]
+C10Models == { MkD(<<0>>, <<0>>, <<1>>, <<5>>, <<>>, <<Sd(2, l)>>) : l \in {1, 2, 3} }                         \* x' = 2 x(t - l)
+             \cup { MkD(<<2, 0>>, <<-2, 0>>, <<3, 1>>, <<5, 5>>, <<Ed(1, 2, 2, 0)>>, <<Sd(2, l1), Sd(-2, l2)>>) : l1 \in {2, 3}, l2 \in {1, 2} }
+             \cup { MkD(<<2, 0>>, <<0, 0>>, <<1, 1>>, <<1, 5>>, <<Ed(1, 2, 4, 0)>>, <<Sd(0, 0), Sd(2, 2)>>) }
+(* vectorised: merged nodes must share their delay (per-node delays of a merged operator: known finding D48) *)
+SameLags(m) == \A i, j \in 1..m.n : (m.kind[i] = 5 /\ m.kind[j] = 5) => m.sd[i].lag = m.sd[j].lag
+C10Cases(maxSteps) ==
+  { cs \in [m : C10Models, cfg : { Cfg(st, so, 0, sv, ve) : st \in {6, maxSteps}, so \in {1, 2, 3}, sv \in {"euler", "heun"}, ve \in BOOLEAN }] :
+        cs.cfg.steps % cs.cfg.store = 0 /\ cs.cfg.steps >= 2 * cs.cfg.store /\ (cs.cfg.vec => SameLags(cs.m)) }
+(* method of steps for x' = (k/dt) x(t - 1) with dt = 1/4 (the harness scales rates by 1/dt), x = 1 on t <= 0, sampled at
+   t = r/4 on [0, 2): x = 1 + k r on [0, 1], x = 1 + k r + k^2 (r - 4)^2 / 2 on [1, 2]; values doubled *)
+DDEExact2(k, r) == 2 + 2 * k * r + (IF r > 4 THEN k * k * (r - 4) * (r - 4) ELSE 0)
 =============================================================================
